@@ -66,6 +66,10 @@ def plan(tier, seed):
     if tier == "thorough":
         for pi in range(120):
             shards.append(("learn", 4, pi))
+    else:
+        # four training rows (two non-prototypes can be drawn in one iteration), one iteration
+        for pi in range(0, 120, 5):
+            shards.append(("learn", 4, pi, 1))
     for a, b in E.chunks(4683, 300):
         shards.append(("mark", "wo", 4, a, b))
     for a, b in E.chunks(1024, 64):
@@ -260,6 +264,8 @@ def shard_learn(shard, seed, res):
     _, n_train, pi = shard[:3]
     cfgs = scripted_configs(pi, seed, shard[3], shard[4]) if n_train == "scripted" \
         else learn_configs(n_train, pi, seed)
+    if n_train == 4 and len(shard) > 3:
+        cfgs = [c for c in cfgs if c["iters"] == shard[3]]
     for cfg in cfgs:
         found = []
 
@@ -333,7 +339,8 @@ def mark_case(prog, res=None):
     batches = prog["batches"]
     if not pre:
         qs = batches[0]
-        batches = [[q] for q in qs[:6]] + [qs[:2], qs]
+        far = [1e200] + [0.0] * (len(qs[0]) - 1)      # every distance to it overflows to +inf
+        batches = [[q] for q in qs[:6]] + [qs[:2], qs, [far], [qs[0], far]]
     for batch in batches:
         # fresh flags for every batch: re-fit
         m, _ = sup.fit_program(prog, fresh=True)
